@@ -292,10 +292,14 @@ func (lc *LockCtx) Info(fn *ssa.Function) *LockInfo {
 	}
 	lc.busy[fn] = true
 	var entry lockState
+	top := false
 	for iter := 0; iter < 8; iter++ {
 		lc.hit[fn] = false
 		mark := len(lc.order)
-		entry = lc.entryOf(fn)
+		entry, top = lc.entryOf(fn)
+		if top {
+			break
+		}
 		if !lc.hit[fn] {
 			break
 		}
@@ -310,16 +314,24 @@ func (lc *LockCtx) Info(fn *ssa.Function) *LockInfo {
 	}
 	lc.busy[fn] = false
 	delete(lc.prov, fn)
+	if top && len(lc.busy) > 0 && lc.anyBusy() {
+		// inside somebody else's cycle and nothing known yet: TOP, not memoised (asked again in the
+		// next round, when the cycle's head has a provisional entry)
+		return nil
+	}
 	li := Locks(fn, entry)
 	lc.memo[fn] = li
 	lc.order = append(lc.order, fn)
 	return li
 }
 
-func (lc *LockCtx) entryOf(fn *ssa.Function) lockState {
-	entry := lockState{}
+// entryOf: the locks held at every call of fn. top reports that nothing is known yet — every caller
+// is itself waiting for fn's cycle to be solved: in the greatest-fixpoint iteration that is "all locks"
+// (the caller's site is skipped), not "no lock".
+func (lc *LockCtx) entryOf(fn *ssa.Function) (entry lockState, top bool) {
+	entry = lockState{}
 	if lc.openEntry(fn) {
-		return entry
+		return entry, false
 	}
 	first := true
 	for _, cs := range lc.Callers[fn] {
@@ -342,7 +354,7 @@ func (lc *LockCtx) entryOf(fn *ssa.Function) lockState {
 			entry = meet(entry, tr)
 		}
 	}
-	return entry
+	return entry, first && len(lc.Callers[fn]) > 0
 }
 
 // translate rewrites caller paths into callee paths: a caller lock "x.y.mu" where argument i has
@@ -382,7 +394,20 @@ func translate(held lockState, c *ssa.CallCommon, callee *ssa.Function) lockStat
 
 // At: locks held before `in`, including caller-held ones.
 func (lc *LockCtx) At(in ssa.Instruction) lockState {
-	return lc.Info(in.Parent()).At(in)
+	li := lc.Info(in.Parent())
+	if li == nil {
+		return lockState{}
+	}
+	return li.At(in)
+}
+
+func (lc *LockCtx) anyBusy() bool {
+	for _, b := range lc.busy {
+		if b {
+			return true
+		}
+	}
+	return false
 }
 
 // ---------- field access enumeration -------------------------------------------------------------
